@@ -522,6 +522,12 @@ class Interp:
                 r.const = False
         r.tags["kind"] = "bool"
         r.tags["parts"] = (is_and, [x for x in e.values], vals)
+        if not is_and and ts[0] is None and vals[0].tag("kind") in ("int", "float"):
+            # `number or default`: the legal value 0 is replaced by the default — a non-injective map of the number
+            xd = vals[0].flat().data
+            r.data = frozenset(o if ("|" in o or "#" in o or "@" in o or o not in xd) else f"{o}|truthy" for o in r.data)
+            r.tags["kind"] = vals[0].tag("kind")
+            self.emit("lossy_map", e, of=vals[0], how="truthy")
         return r
 
     def e_UnaryOp(self, e):
@@ -931,7 +937,24 @@ class Interp:
         if fv.tag("extclass_call") is not None:
             return call_extern(self, e, fv.tag("extclass_call"), args, kws)
         self.emit("opaque_callee", e, callee=fv, args=args, kws=kws)
-        return self.opaque_call(e, args, kws, extra=fv)
+        r = self.opaque_call(e, args, kws, extra=fv)
+        io = fv.tag("interp_of")
+        if fv.tag("kind") == "interp" and io is not None and args:
+            # interp1d(x, y, axis=a)(x_new): y resampled along axis a — unit, frame and the other axes of y; the extent of x_new on a
+            x_, y_, ax = io
+            yf, nf = y_.flat(), args[0].flat()
+            r.unit, r.frame = yf.unit, yf.frame
+            r.sign = yf.sign if yf.sign in ("NONNEG",) else None
+            r.tags["kind"] = "ndarray"
+            r.tags["notnone"] = True
+            r.fresh = "FRESH"
+            a = -1 if ax is None else (ax.const if ax.known and isinstance(ax.const, int) else None)
+            if a is not None and yf.shape is not None and not yf.shape.ell and nf.shape is not None and not nf.shape.ell \
+                    and nf.shape.rank == 1 and -yf.shape.rank <= a < yf.shape.rank:
+                axes = list(yf.shape.axes)
+                axes[a] = nf.shape.axes[0]
+                r.shape = Shape(tuple(axes))
+        return r
 
     def opaque_call(self, e, args, kws, extra=None):
         r = Val(term=mk_term("call?", M.norm_text(e.func)[:40]))
